@@ -23,7 +23,9 @@ RULE = ('Hypothesis-generated frame scripts over 2-4 recording WorldHandle subcl
         'abandoned after a request, next iteration processes the instance the target handle yields, one '
         'on_switch_out in the instance left, one on_switch_in in the instance entered after its load-time '
         'callbacks and held events and before its first process, a left world hears nothing while away, clear '
-        'flags yield fresh instances, no in/out events for raise SwitchWorld. Non-trivial = >= 2 switches incl. a '
+        'flags yield fresh instances, no in/out events for raise SwitchWorld. '
+        'Probes are also sent to instances whose handle was cleared meanwhile; a coroutine may kill itself before it asks for the switch. '
+        'Non-trivial = >= 2 switches incl. a '
         'clear flag combined with switch(), a self-switch, or a return to a left world with held events. '
         'Distinct = sha1 of canonical JSON.')
 ASSUMPTIONS = [
